@@ -296,19 +296,29 @@ def record_runs(ctx, rng, nprog):
         T_, F_ = b"\x01", b""
         unbalanced = [[T_, T_, 100], [T_, F_, 100, 103], [T_, T_, 99], [T_, F_, 99], [T_, F_, 99, 103], [T_, T_, 100, 103], [T_, 103], [T_, 104], [T_, T_, 99, 104, 104],
                       [T_, T_, T_, 100, 99, 104], [T_, F_, F_, 100, 100, 104], [T_, T_, 99, T_, 99, 104], [b"\x21" * 5, T_, T_, 100], [T_, T_, 100, b"\x02" * 33, 172],
-                      [T_, F_, 99, 103, 103, 104], [T_, T_, 100, 103, 103], [T_, 99, 103, 104, 103], [F_, 100, 104, 104]]
+                      [T_, 99, 103, 104, 103], [F_, 100, 104, 104]]
+        # (a second OP_ELSE inside one conditional is valid under consensus but not "properly nested" in the property's sense: no such programs)
         for pi in range(nprog):
             cmds = gen_program(rng, 40)
             if pi < len(unbalanced):
                 cmds = list(unbalanced[pi])
             elif rng.random() < 0.06:
                 # break the balance of a generated program: drop one ENDIF / IF, or add a stray ELSE / ENDIF / unterminated opener
-                idxs = [k_ for k_, c_ in enumerate(cmds) if c_ in (99, 100, 103, 104)]
+                depth_, top_pos, top_endifs = 0, [0], []
+                for k_, c_ in enumerate(cmds):
+                    if c_ in (99, 100):
+                        depth_ += 1
+                    elif c_ == 104:
+                        depth_ -= 1
+                        if depth_ == 0:
+                            top_endifs.append(k_)
+                    if depth_ == 0:
+                        top_pos.append(k_ + 1)
                 how = rng.choice(["drop", "stray", "open"])
-                if how == "drop" and idxs:
-                    del cmds[rng.choice(idxs)]
+                if how == "drop" and top_endifs:
+                    del cmds[rng.choice(top_endifs)]                       # the ENDIF of a top-level conditional
                 elif how == "stray":
-                    cmds.insert(rng.randrange(len(cmds) + 1), rng.choice([103, 104]))
+                    cmds.insert(rng.choice(top_pos), rng.choice([103, 104]))    # an ELSE / ENDIF outside every conditional
                 else:
                     cmds += [rng.choice([T_, F_]), rng.choice([99, 100])] + ([103] if rng.random() < 0.4 else [])
             version = rng.choice([1, 2, 2, 3])
